@@ -9,6 +9,7 @@ import Mashu.Args
 import Mashu.Resolve
 import Mashu.Quote
 import Mashu.Discr
+import Mashu.Cache
 import Mashu.Generated
 open Lean
 
@@ -173,6 +174,62 @@ def dispatchDiscr (op : String) (j : Json) : Except String Json := do
       let root ← nat (j.getObjValD "root")
       pure (Json.mkObj [("out", ofO (Discr.noField cs root sup (fun c => acc.contains c)))])
 
+/-- C13: dialect caches over a history of class definitions and calls; Dialect.merge -/
+def dispatchCache (op : String) (j : Json) : Except String Json := do
+  let nat (x : Json) : Except String Nat := match x with
+    | .num n => if n.exponent == 0 && n.mantissa ≥ 0 then pure n.mantissa.toNat else throw "bad nat"
+    | _ => throw "bad nat"
+  let optNat (x : Json) : Except String (Option Nat) := match x with
+    | .null => pure none
+    | y => do pure (some (← nat y))
+  let toSlot (x : Json) : Except String Cache.Slot := do
+    let a ← arr x
+    pure { fmt := ← str a[0]!, unpack := ← bool a[1]! }
+  let toM (x : Json) : Option Cache.M := match x with
+    | .str "pass" => some .pass
+    | .str t => some (.fn t)
+    | _ => none
+  let ofM (m : Option Cache.M) : Json := match m with
+    | some (.fn t) => Json.str t
+    | some .pass => Json.str "pass"
+    | none => Json.null
+  let toDialect (x : Json) : Except String Cache.Dialect := do
+    let opts ← (← arr (x.getObjValD "opts")).toList.mapM (fun e => do
+      let a ← arr e
+      pure ((← str a[0]!), (← str a[1]!)))
+    let strat ← (← arr (x.getObjValD "strat")).toList.mapM (fun e => do
+      let a ← arr e
+      pure ((← str a[0]!), ({ whole := ← bool a[1]!, ser := toM a[2]!, de := toM a[3]! } : Cache.Reg)))
+    pure { opts := opts, strat := strat }
+  match op with
+  | "cache" => do
+      let evs ← (← arr (j.getObjValD "events")).toList.mapM (fun e => do
+        match e.getObjVal? "d" with
+        | .ok c => do
+            let a ← arr c
+            let slots ← (← arr a[3]!).toList.mapM toSlot
+            pure (Cache.Event.define (← nat a[0]!) (← optNat a[1]!) (← bool a[2]!) slots)
+        | .error _ => do
+            let a ← arr (e.getObjValD "q")
+            pure (Cache.Event.call (← nat a[0]!) (← toSlot a[1]!) (← optNat a[2]!)))
+      let ofO (o : Cache.Out) : Json := match o with
+        | .defined => Json.str "defined"
+        | .ran m => Json.str (match m.dialect with
+            | some d => s!"ran:{m.cls}:{d}"
+            | none => s!"ran:{m.cls}:-")
+        | .noSuchMethod => Json.str "nomethod"
+      pure (Json.mkObj [("impl", Json.arr ((Cache.run Mashu.Generated.cacheGuardOwnDict [] evs).map ofO).toArray),
+                        ("spec", Json.arr ((Cache.runSpec [] evs).map ofO).toArray)])
+  | _ => do
+      let mine ← toDialect (j.getObjValD "mine")
+      let other ← toDialect (j.getObjValD "other")
+      let m := Cache.merge Mashu.Generated.mergeKeys mine other
+      let stackedOpts := Mashu.Generated.dialectOptions.filterMap (fun o => (Cache.stacked other mine o).map (fun v => (o, v)))
+      pure (Json.mkObj [
+        ("opts", Json.arr (m.opts.map (fun kv => Json.arr #[Json.str kv.1, Json.str kv.2])).toArray),
+        ("stacked", Json.arr (stackedOpts.map (fun kv => Json.arr #[Json.str kv.1, Json.str kv.2])).toArray),
+        ("strat", Json.arr (m.strat.map (fun e => Json.arr #[Json.str e.1, ofM e.2.ser, ofM e.2.de])).toArray)])
+
 def natList (j : Json) : Except String (List Nat) := do
   (← arr j).toList.mapM (fun x => match x with
     | .num n => if n.exponent == 0 && n.mantissa ≥ 0 then pure n.mantissa.toNat else throw "bad code point"
@@ -207,6 +264,7 @@ def dispatch (j : Json) : Except String Json := do
   | "resolve" => dispatchResolve j
   | "pyrepr" | "pylex" => dispatchQuote op j
   | "discr" | "discrnf" => dispatchDiscr op j
+  | "cache" | "merge" => dispatchCache op j
   | _ => throw s!"unknown op {op}"
 
 end Mashu
